@@ -444,6 +444,7 @@ def core_canon(mods, maxpay, nkeys=1):
         ufd = S["ufd"]
         ufd = ufd if isinstance(ufd, list) else [_fn(ufd)[k] for k in sorted(_fn(ufd))]
         parts.append("ufd:" + "".join("c" if ufd[i] == "closed" else "o" for i in range(nkeys)))
+        parts.append("held:" + evs(S["held"]))
         pay = S["pay"]
         pay = pay if isinstance(pay, list) else [_fn(pay)[k] for k in sorted(_fn(pay))]
         parts.append("pay:" + "".join({"unused": "u", "live": "l", "freed": "f"}[x["st"]] for x in pay))
@@ -521,6 +522,11 @@ CORE_CFGS = {
     "tb": (["A", "B"], {"VP_CAP": "2", "VP_CTXPERSIST": "1", "VP_SETUP": "loop2"}),
     "btmo": (["A", "B"], {"VP_CAP": "2", "VP_CTXPERSIST": "1", "VP_SETUP": "loop2", "VP_MAXPAY": "2"}),
     "tick": (["A", "B"], {"VP_CAP": "2", "VP_CTXPERSIST": "1"}),
+    "mem": (["A", "B"], {"VP_CAP": "2", "VP_CTXPERSIST": "1", "VP_SETUP": "loop2", "VP_MAXPAY": "2"}),
+    "memfd": (["A", "B"], {"VP_CAP": "2", "VP_CTXPERSIST": "1", "VP_SETUP": "loop2", "VP_NKEYS": "1"}),
+    "foreign": (["A", "B"], {"VP_HOOKS": "A:esx,B:x", "VP_CAP": "2"}),
+    "stashb": (["A", "B"], {"VP_CAP": "2", "VP_CTXPERSIST": "1", "VP_SETUP": "loop2", "VP_MAXPAY": "2", "VP_NKEYS": "1"}),
+    "subos": (["A", "B"], {"VP_CAP": "2", "VP_CTXPERSIST": "1", "VP_SETUP": "loop2"}),
     "bc2": (["A", "B"], {"VP_CAP": "2", "VP_CTXPERSIST": "1", "VP_SETUP": "loop2", "VP_MAXPAY": "3"}),
     "batch": (["A", "B"], {"VP_CAP": "3", "VP_CTXPERSIST": "1", "VP_SETUP": "loop2", "VP_MAXPAY": "2"}),
     "stash": (["A", "B"], {"VP_CAP": "2", "VP_CTXPERSIST": "1", "VP_SETUP": "loop2", "VP_MAXPAY": "2"}),
@@ -596,7 +602,7 @@ def c13(prop, tier, seed):
 
 @check("C16")
 def c16(prop, tier, seed):
-    return core_check(prop, tier, seed, ["stash"], ["stash", "become"],
+    return core_check(prop, tier, seed, ["stash", "stashb"], ["stash", "stashb", "become"],
                       "Focus: stash inside handlers, unstash(n) for n = 1, 2, SIZE_MAX from top level and handlers, stop discards.", Dq=7, Dt=9)
 
 
@@ -608,13 +614,13 @@ def c17(prop, tier, seed):
 
 @check("C09")
 def c09(prop, tier, seed):
-    return core_check(prop, tier, seed, ["srca", "srcb"], ["srca", "srcb", "fdev"],
+    return core_check(prop, tier, seed, ["srca", "srcb", "btmo", "subos"], ["srca", "srcb", "btmo", "subos", "fdev", "tb"],
                       "Focus: per-kind keyed sets (descriptor, timer, signal, path, pid, threshold, subscription): EEXIST on a present key, removal of exactly the named key, per-kind and total counts through m_mod_src_len, survival across pause/resume, dropped at stop.", Dq=6, Dt=8)
 
 
 @check("C03")
 def c03(prop, tier, seed):
-    return core_check(prop, tier, seed, ["fdev", "ps2q"], ["fdev", "ps2q", "ps3", "pub2"],
+    return core_check(prop, tier, seed, ["fdev", "ps2q", "subos"], ["fdev", "ps2q", "subos", "ps3", "pub2"],
                       "Focus: events of descriptor / timer / pubsub sources reach their owner with the registration userdata only while RUNNING; one-shot removal; poll batches of several sources in every order; errno left behind by callbacks; loop ends only on quit / no running module.", Dq=5, Dt=7)
 
 
@@ -628,3 +634,14 @@ def c20(prop, tier, seed):
 def c18(prop, tier, seed):
     return core_check(prop, tier, seed, ["tb"], ["tb"],
                       "Focus: token bucket: every kind of rate-limited call with 0, 1, 2 tokens (EAGAIN and no effect without a token), refill ticks capped at the burst, rate 0 and stop remove the limit; token count compared after every step.", Dq=6, Dt=8)
+
+
+@check("C04")
+def c04(prop, tier, seed):
+    return core_check(prop, tier, seed, ["mem", "memfd", "life", "pub2"],
+                      ["mem", "memfd", "life", "ctx", "perm", "ps2q", "ps2", "pub2", "ps3", "bc2", "batch", "stash", "become", "fdev", "srca", "subos", "tb"],
+                      "C04 = memory and lifetime safety on every explored history: the union of the Core configurations replayed under ASan/UBSan "
+                      "with the allocator ledger (nothing outstanding, nothing freed twice, in clean states), plus configurations in which the "
+                      "program retains events beyond their invocation (and beyond the stop / deregistration of their module and the release of "
+                      "the context) and extra references on module objects (zombies), releasing them in any order; retained events are re-read "
+                      "after every step.", Dq=5, Dt=6)
